@@ -123,6 +123,20 @@ Definition apply_generate (ck : cookie) (ip : addr) (now : tv) (rnd : nat -> lis
            then timeval_expired (ck_client_ts ck2) now COOKIE_CLIENT_TIMEOUT_MS else Ok false);
   Ok (if e then (cookie_generate (clear_server ck2) ip now (rnd n2), S n2) else (ck2, n2)).
 
+(* the part of ares_cookie_apply after the regression check *)
+Definition apply_tail (ck1 : cookie) (ip : addr) (now : tv) (rnd : nat -> list Z)
+  : outcome (cookie * req * Z * nat) :=
+  do quiet <- (if ck_state ck1 =? ARES_COOKIE_UNSUPPORTED
+               then do e <- timeval_expired (ck_unsup_ts ck1) now COOKIE_REGRESSION_TIMEOUT_MS; Ok (negb e)
+               else Ok false);
+  if quiet then Ok (ck1, OptOnly, ARES_SUCCESS, 0%nat) else
+  let ck2 := if ck_state ck1 =? ARES_COOKIE_UNSUPPORTED then cookie_zero else ck1 in
+  do g <- apply_generate ck2 ip now rnd;
+  let '(ck3, n) := g in
+  (* unsigned char c[40]: client (8) + server_len bytes of server[32] *)
+  guard (ck_server_len ck3 <=? 32)%nat OutOfBounds (
+  Ok (ck3, OptCookie (ck_client ck3 ++ firstn (ck_server_len ck3) (ck_server ck3)), ARES_SUCCESS, n)).
+
 (* result: new cookie record, new request, status, number of ares_rand_bytes calls *)
 Definition cookie_apply (ck : cookie) (rq : req) (tcp : bool) (ip : addr) (now : tv)
            (rnd : nat -> list Z) : outcome (cookie * req * Z * nat) :=
@@ -131,16 +145,7 @@ Definition cookie_apply (ck : cookie) (rq : req) (tcp : bool) (ip : addr) (now :
   | _ =>
     if tcp then Ok (ck, OptOnly, ARES_SUCCESS, 0%nat) else
     do ck1 <- apply_regress ck now;
-    do quiet <- (if ck_state ck1 =? ARES_COOKIE_UNSUPPORTED
-                 then do e <- timeval_expired (ck_unsup_ts ck1) now COOKIE_REGRESSION_TIMEOUT_MS; Ok (negb e)
-                 else Ok false);
-    if quiet then Ok (ck1, OptOnly, ARES_SUCCESS, 0%nat) else
-    let ck2 := if ck_state ck1 =? ARES_COOKIE_UNSUPPORTED then cookie_zero else ck1 in
-    do g <- apply_generate ck2 ip now rnd;
-    let '(ck3, n) := g in
-    (* unsigned char c[40]: client (8) + server_len bytes of server[32] *)
-    guard (ck_server_len ck3 <=? 32)%nat OutOfBounds (
-    Ok (ck3, OptCookie (ck_client ck3 ++ firstn (ck_server_len ck3) (ck_server ck3)), ARES_SUCCESS, n))
+    apply_tail ck1 ip now rnd
   end.
 
 (* ---- ares_cookie_validate ---- *)
@@ -151,6 +156,15 @@ Record query := mkQ {
   q_sent : bool }.      (* harness/caller state: on a connection, awaiting a response *)
 
 Definition set_try (q : query) (t : Z) (tcp : bool) : query := mkQ (q_req q) t tcp (q_sent q).
+
+(* the end of ares_cookie_validate: an otherwise valid response without a server cookie *)
+Definition validate_lacking (ck1 : cookie) (now : tv) : outcome (cookie * Z) :=
+  if ck_state ck1 =? ARES_COOKIE_SUPPORTED then
+    do s <- timeval_is_set (ck_unsup_ts ck1);
+    Ok (if s then ck1 else set_unsup ck1 now, ARES_EBADRESP)
+  else if ck_state ck1 =? ARES_COOKIE_GENERATED then
+    Ok (set_unsup (set_state cookie_zero ARES_COOKIE_UNSUPPORTED) now, ARES_SUCCESS)
+  else Ok (ck1, ARES_SUCCESS).
 
 (* result: cookie record, query, status, arguments of the ares_requeue_query call if any *)
 Definition cookie_validate (ck : cookie) (q : query) (rc0 : option (list Z)) (rcode : Z) (now : tv)
@@ -187,12 +201,9 @@ Definition cookie_validate (ck : cookie) (q : query) (rc0 : option (list Z)) (rc
         Ok (ck1, q', ARES_EBADRESP, Some (ARES_SUCCESS, ARES_FALSE))
       end
     else if rlen >? 8 then Ok (ck1, q, ARES_SUCCESS, None)
-    else if ck_state ck1 =? ARES_COOKIE_SUPPORTED then
-      do s <- timeval_is_set (ck_unsup_ts ck1);
-      Ok (if s then ck1 else set_unsup ck1 now, q, ARES_EBADRESP, None)
-    else if ck_state ck1 =? ARES_COOKIE_GENERATED then
-      Ok (set_unsup (set_state cookie_zero ARES_COOKIE_UNSUPPORTED) now, q, ARES_SUCCESS, None)
-    else Ok (ck1, q, ARES_SUCCESS, None)
+    else
+      do r <- validate_lacking ck1 now;
+      let '(ck2, st) := r in Ok (ck2, q, st, None)
   end.
 
 (* ---- the component in its environment: one server, any number of queries ----
